@@ -165,9 +165,205 @@ def run(rep, tier, seed):
             rep.obl += obl
     for cfg in ('avx2', 'avx512'):
         rep.sample(dict(config=cfg, variants=[v for v, t in VARIANTS if t == 1 or cfg == 'avx512'], lengths='0..%d' % N))
-    rep.floor('length x variant configurations', len(rep.obl), 5 * (N + 1))
+    # all lengths: inductive argument on the loop (lengths <= 7 are fully covered by the bounded tier above)
+    for cfg in ('avx2', 'avx512'):
+        smod = front.module(cfg, sroa=True)
+        for variant, two in VARIANTS:
+            if two == 2 and cfg != 'avx512':
+                continue
+            inductive(rep, smod, cfg, variant, two)
+    rep.floor('length x variant configurations', len([o for o in rep.obl if o['rule'] == 'sponge-bounded']), 5 * (N + 1))
     rep.cov['lengths'] = '0..%d (every residue mod 8, both sides of the <=4 threshold)' % N
     rep.cov['exhaustive'] = False
     rep.assumptions += ['bounded in the input length (0..%d); universal in element values and representations' % N,
                         'the permutation is treated as an opaque function (C06 decides it)']
     rep.trusted = ['clang 14 lowering', 'glv interpreter']
+
+
+# ------------------------------------------------------------------------------------------------------------------
+# all lengths: inductive argument on the absorb loop (one abstract iteration from a havocked state, per case of the
+# predicates the code itself tests: first/later iteration x block length n = min(remaining, 8))
+def _decider(assume):
+    """comparisons between the shape symbols size (S) and remaining (R) under the case assumptions"""
+    from ..poly import as_poly
+
+    def decide(pred, a, b):
+        d = as_poly(a) - as_poly(b)
+        vs = d.vars()
+        if not vs <= {'size', 'R'}:
+            return None
+        lo = {'size': assume['S'][0], 'R': assume['R'][0]}
+        hi = {'size': assume['S'][1], 'R': assume['R'][1]}
+        # special relation between R and size
+        if d == Poly.var('R') - Poly.var('size') or d == Poly.var('size') - Poly.var('R'):
+            rel = assume['R_vs_S']          # 'eq' or 'lt'
+            sgn = 1 if d == Poly.var('R') - Poly.var('size') else -1
+            val = 0 if rel == 'eq' else -1 * sgn      # sign of d
+            return {'eq': val == 0, 'ne': val != 0, 'ult': val < 0, 'ule': val <= 0, 'ugt': val > 0, 'uge': val >= 0}.get(pred)
+        if len(vs) != 1:
+            return None
+        x = list(vs)[0]
+        c = d.d.get(((x, 1),), 0)
+        k0 = d.d.get((), 0)
+        if c not in (1, -1):
+            return None
+        dl = c * (lo[x] if c > 0 else hi[x]) + k0
+        dh = c * (hi[x] if c > 0 else lo[x]) + k0
+        INF = float('inf')
+        for p, f in (('eq', lambda l, h: True if l == h == 0 else (False if l > 0 or h < 0 else None)),
+                     ('ne', lambda l, h: False if l == h == 0 else (True if l > 0 or h < 0 else None)),
+                     ('ult', lambda l, h: True if h < 0 else (False if l >= 0 else None)),
+                     ('ule', lambda l, h: True if h <= 0 else (False if l > 0 else None)),
+                     ('ugt', lambda l, h: True if l > 0 else (False if h <= 0 else None)),
+                     ('uge', lambda l, h: True if l >= 0 else (False if h < 0 else None))):
+            if p == pred:
+                return f(dl, dh)
+        return None
+    return decide
+
+
+def inductive(rep, mod, cfg, variant, two):
+    from ..cfg import FnInfo
+    from ..checks.c10 import loop_header
+    from ..poly import as_poly
+    INF = float('inf')
+    name = mod.find('PoseidonGoldilocks::%s(Goldilocks::Element*, Goldilocks::Element*, unsigned long)' % variant)
+    site = site_of(mod, name)
+    fi = FnInfo(mod.fn(name))
+    hdr = loop_header(fi)
+    tagp = 'induct:%s/%s' % (cfg, variant)
+    if hdr is None:
+        rep.incomplete(tagp, 'sponge-inductive', site, 'the absorb loop was not found (expected exactly one loop)')
+        return
+    phis = [i for i in fi.fn.blocks[hdr] if i.op == 'phi']
+    if len(phis) != 1:
+        rep.incomplete(tagp, 'sponge-inductive', site, 'loop header carries %d variables, expected only `remaining`' % len(phis))
+        return
+    W = 12 * two
+    S = Poly.var('size')
+
+    def fresh(assume):
+        pt = PermTable()
+        I = Interp(mod, perm_summaries(mod, pt), {'decide': _decider(assume)})
+        rin = Region('input', 'param', extent=None, elem='field')
+        rout = Region('output', 'param', extent=8 * 4 * two, elem='field')
+        ps = [p for t, p in fi.fn.params]
+        env = {ps[0]: Ptr(rout, 0), ps[1]: Ptr(rin, 0), ps[2]: S}
+        return pt, I, rin, rout, env
+
+    def state_region(I, env):
+        regs = [v.reg for v in env.values() if isinstance(v, Ptr) and v.reg.kind == 'alloca' and v.reg.extent == 8 * W]
+        return regs[0] if len(regs) == 1 else None
+
+    def lane(i, w):
+        return i if two == 1 else lane_map(i, w)
+
+    cases = []
+    # first iteration
+    cases.append(('first n=8', dict(S=(8, INF), R=(8, INF), R_vs_S='eq'), S, 8, True))
+    # later iterations
+    cases.append(('later n=8', dict(S=(9, INF), R=(8, INF), R_vs_S='lt'), Poly.var('R'), 8, False))
+    for r in range(1, 8):
+        cases.append(('later n=%d' % r, dict(S=(max(9, r + 1), INF), R=(r, r), R_vs_S='lt'), r, r, False))
+    ok_all = True
+    for label, assume, Rval, n, first in cases:
+        tag = '%s %s' % (tagp, label)
+        try:
+            pt, I, rin, rout, env0 = fresh(assume)
+            kind, prev, env1 = I.run_fragment(name, env0, fi.fn.order[0], stop_at=hdr)
+            if kind != 'stop':
+                raise Incomplete('the loop is not reached for size > 4')
+            st = state_region(I, env1)
+            if st is None:
+                raise Incomplete('the %d-element state array was not identified' % W)
+            env2 = dict(env1)
+            env2[phis[0].dst] = Rval
+            old = []
+            if not first:
+                for i in range(W):
+                    a = FV.atom('st[%d]' % i)
+                    I.mem[(st, 8 * i)] = (a, 8)
+                    old.append(a.nf)
+            else:
+                for i in range(W):
+                    I.mem.pop((st, 8 * i), None)
+            I.reads = []
+            I.writes = []
+            kind, prev2, env3 = I.run_fragment(name, env2, hdr, skip_phis=True, stop_at=hdr)
+            if kind != 'stop':
+                raise Incomplete('the loop body does not come back to the loop head')
+            nxt = None
+            for v, l in phis[0].a:
+                if l == prev2:
+                    nxt = I.val(env3, v, phis[0].ty)
+            probs = []
+            if as_poly(nxt) != as_poly(Rval) - n:
+                probs.append("remaining' = %s, expected remaining - %d" % (nxt, n))
+            off = S - as_poly(Rval)
+            # expected permutation inputs
+            for w in range(two):
+                base = off + (S if w == 1 else 0)
+                blk = [Poly.var('input[%s]' % (base + i)) for i in range(n)] + [C(0)] * (8 - n)
+                cap = [C(0)] * 4 if first else [old[lane(i, w)] for i in range(4)]
+                want_in = tuple(x.modp().key() for x in blk + cap)
+                ids = [k for k, v in pt.ids.items() if k == want_in]
+                if not ids:
+                    probs.append('the permutation is not applied to input[off..off+%d) ++ 0^%d ++ %s (state %d)' % (n, 8 - n, 'zero capacity' if first else 'previous outputs 0..3', w))
+                    continue
+                pid = pt.ids[want_in]
+                for i in range(12):
+                    g = I.mem.get((st, 8 * lane(i, w)))
+                    if g is None or nf_of(g[0]) != Poly.var('Perm%d[%d]' % (pid, i)):
+                        probs.append('state[%d] after the iteration is not element %d of that permutation' % (lane(i, w), i))
+                        break
+            rd = {(r.name, o) for r, o, sz in I.reads if r is rin}
+            want_rd = set()
+            for w in range(two):
+                base = off + (S if w == 1 else 0)
+                for i in range(n):
+                    k = (base + i) * 8
+                    want_rd.add(('input', k.cval() if k.isconst() else k))
+            if rd != want_rd:
+                probs.append('input cells read in this iteration are not exactly [off, off+%d) of each sequence' % n)
+            if any(r is rout for r, o, sz in I.writes):
+                probs.append('output is written inside the loop')
+            if probs:
+                ok_all = False
+                rep.refute(tag, 'sponge-inductive', site, '; '.join(probs[:3]))
+            else:
+                rep.ok(tag, 'sponge-inductive', site, "state' = Perm(input[off,off+%d) ++ 0^%d ++ %s), remaining' = remaining - %d, reads exactly those %d cells (off = size - remaining symbolic)" % (
+                    n, 8 - n, 'zero capacity' if first else 'state[0..4)', n, n * two))
+        except (Incomplete, IRError, KeyError) as e:
+            ok_all = False
+            rep.incomplete(tag, 'sponge-inductive', site, str(e))
+        except Sink as e:
+            ok_all = False
+            rep.refute(tag, 'sponge-inductive', sink_site(e, site), str(e))
+    # exit: remaining = 0
+    tag = tagp + ' exit'
+    try:
+        assume = dict(S=(5, INF), R=(0, 0), R_vs_S='lt')
+        pt, I, rin, rout, env0 = fresh(assume)
+        kind, prev, env1 = I.run_fragment(name, env0, fi.fn.order[0], stop_at=hdr)
+        st = state_region(I, env1)
+        env2 = dict(env1)
+        env2[phis[0].dst] = 0
+        for i in range(W):
+            I.mem[(st, 8 * i)] = (FV.atom('st[%d]' % i), 8)
+        I.reads = []
+        I.writes = []
+        kind, rv, env3 = I.run_fragment(name, env2, hdr, skip_phis=True)
+        bad = []
+        for w in range(two):
+            for j in range(4):
+                g = I.mem.get((rout, 8 * (4 * w + j)))
+                if g is None or nf_of(g[0]) != Poly.var('st[%d]' % lane(j, w)):
+                    bad.append('output[%d] is not state element %d' % (4 * w + j, lane(j, w)))
+        if any(r is rin for r, o, sz in I.reads):
+            bad.append('input is read after the last block')
+        (rep.refute if bad else rep.ok)(tag, 'sponge-inductive', site, '; '.join(bad[:3]) if bad else
+                                        'when remaining = 0 the digest is state[0..4) (per sequence) and nothing else is read')
+    except (Incomplete, IRError, KeyError) as e:
+        rep.incomplete(tag, 'sponge-inductive', site, str(e))
+    except Sink as e:
+        rep.refute(tag, 'sponge-inductive', sink_site(e, site), str(e))
